@@ -224,6 +224,23 @@ impl Array {
     }
 }
 
+#[cfg(rrss_verif)]
+impl Array {
+    /// verification hook: the sequence part, and the dictionary part with keys as values
+    pub fn verif_parts(&self) -> (Vec<Val>, Vec<(Val, Val)>) {
+        let key = |k: &DictKey| match k {
+            DictKey::Undefined => Val::Undefined,
+            DictKey::Null => Val::Null,
+            DictKey::Boolean(b) => Val::Boolean(*b),
+            DictKey::String(s) => Val::from(s.clone()),
+        };
+        (
+            self.arr.iter().cloned().collect(),
+            self.dict.iter().map(|(k, v)| (key(k), v.clone())).collect(),
+        )
+    }
+}
+
 fn index_string(s: &str, i: usize) -> Val {
     s.chars().nth(i).map_or(Val::Undefined, Val::from)
 }
